@@ -106,7 +106,9 @@ def variants(algo, tier):
         out += [("reg0.1", {"reg_W": 0.1}, 4 if q else 8), ("reg1", {"reg_W": 1.0}, 4 if q else 8), ("reg10", {"reg_W": 10.0}, 3 if q else 6)]
     elif algo == "hals_nnls":
         out += [("cold", {"warm": False}, 0), ("warm", {"warm": True}, 0), ("sparsity", {"warm": True, "sparsity_coefficient": 0.3}, 0),
-                ("ridge", {"warm": True, "ridge_coefficient": 0.5}, 0)]
+                ("ridge", {"warm": True, "ridge_coefficient": 0.5}, 0),
+                ("sparsity+ridge", {"warm": True, "sparsity_coefficient": 0.3, "ridge_coefficient": 0.5}, 0),
+                ("sparsity+ridge-cold", {"warm": False, "sparsity_coefficient": 0.1, "ridge_coefficient": 2.0}, 0)]
     return out
 
 
